@@ -29,8 +29,10 @@ RULE = ('A case is a generated audit trail on the in-memory ZooKeeper: 2-9 '
         'the real code retries (zkutils.with_retry, real KazooRetry), '
         'propagates or swallows; same with SessionExpiredError (at every '
         'snapshot upload and every 4th other write). Every faulted run is '
-        'followed by a clean re-run on the resulting state. crash_points = '
-        'write x kind. After every run: each '
+        'followed by a clean re-run on the resulting state (skipped, with '
+        'the state check, when the faulted run left a node table identical '
+        'to one already judged in this case). crash_points = write x kind. '
+        'After every run: each '
         'record that was live before is live, or returned by download_batch '
         '/ a row of a snapshot the harness opens itself; events of scheduled '
         'instances and records younger than the expiry are live; no pruner '
@@ -226,6 +228,13 @@ def execute(case, stats):
         if prunes:
             stats.count('cases_pruned')
 
+        # the archiver runs again a minute later: still nothing lost
+        checked = {world.fingerprint()}
+        outcome, _done = world.run()
+        assert outcome == 'completed'
+        stats.count('recovery_runs')
+        world.check('recovery', True)
+
         # every write of the clean run x every kind of failure there, each
         # followed by a clean re-run (the restarted archiver)
         salt = len(case['instances']) % 4
@@ -249,6 +258,15 @@ def execute(case, stats):
                 stats.count('fault_at:%s' % where)
                 if kind != 'stop':
                     stats.count('zk_fault_outcome:%s:%s' % (kind, outcome))
+                state = world.fingerprint()
+                if state in checked:
+                    # e.g. the error propagated and left exactly the state of
+                    # the process stopping there, or a retried delete led to
+                    # the state of the undisturbed run: already judged (and
+                    # re-run) above
+                    stats.count('fault_states_same_as_already_checked')
+                    continue
+                checked.add(state)
                 world.check('crash' if kind == 'stop' else 'zkerror', False)
                 outcome, _done = world.run()
                 assert outcome == 'completed'
